@@ -76,7 +76,10 @@ func (c *cgen) coreNode(depth int) *cnode {
 		body := &cnode{kind: "begin", kids: seq(depth-1, 1)}
 		c.funcs = append(c.funcs, body)
 		return &cnode{kind: k, id: len(c.funcs) - 1}
-	case "mapf", "loop":
+	case "mapf":
+		// flag: over a list (MapList / the model's mapList) instead of an array (MapArray / mapArr)
+		return &cnode{kind: k, n: 1 + r.Intn(3), flag: r.Intn(2) == 0, kids: seq(depth-1, 1)}
+	case "loop":
 		return &cnode{kind: k, n: 1 + r.Intn(3), kids: seq(depth-1, 1)}
 	case "lazy":
 		return &cnode{kind: k, id: r.Intn(nGlobals), val: r.Intn(nGlobals), kids: []*cnode{c.coreNode(depth - 1)}}
